@@ -18,11 +18,11 @@ SCALE = ('PPQN 96/480/960 configurations with step sizes and note values of that
 ASSUMPTIONS = ["a tokenise call that raises TokenisationException is a rejection, not a violation"]
 REQUIRED_FLAGS = ["construction_history", "unfused_velocity", "unfused_track", "unfused_value", "no_running_values", "bins_gt_1", "multi_track",
                   "closure_tokens_checked", "rejection_observed", "irregular_input_accepted", "member_detokenised",
-                  "piece_at_high_resolution_accepted"]
+                  "piece_at_high_resolution_accepted", "stream_handed_over_as_generator"]
 
 FLAGS = list(itertools.product((True, False), repeat=4))   # running, fuse_track, fuse_value, fuse_velocity
-VALUE_SETS = [None, [6, 12, 36], [12]]
-STEP_SETS = [None, [12, 24], [6, 12, 24]]
+VALUE_SETS = [None, [6, 12, 36], [12], [12, 6, 36, 12, 6]]            # the last one names values twice
+STEP_SETS = [None, [12, 24], [6, 12, 24], [12, 24, 12, 6]]
 TSR = [(2, 16), (3, 4)]
 
 
@@ -63,6 +63,15 @@ def lattice(tier):
                 yield dict(fl=fl, vb=vb, nt=1, pr=(60, 61), nv=2, st=0, tsr=1)
 
 
+def repeated_entries(tier):
+    """value / step lists that name an entry more than once (e.g. plain + dotted + triplet values put together from the
+    library's own helpers: triplets of dotted values equal plain values)"""
+    for fl in (FLAGS[0], FLAGS[15], FLAGS[6]):
+        yield dict(fl=fl, vb=2, nt=1, pr=(60, 61), nv=3, st=0, tsr=0)
+        yield dict(fl=fl, vb=2, nt=2, pr=(60, 61), nv=0, st=3, tsr=0)
+        yield dict(fl=fl, vb=1, nt=1, pr=(60, 61), nv="helpers", st=0, tsr=0)
+
+
 def resolutions(tier):
     """scale in the time resolution: PPQN 96 / 480 / 960 with step sizes and note values of that resolution (token fields
     of four digits)"""
@@ -72,7 +81,7 @@ def resolutions(tier):
 
 
 def context(tier, seed):
-    n = sum(1 for _ in lattice(tier)) + sum(1 for _ in resolutions(tier))
+    n = sum(1 for _ in lattice(tier)) + sum(1 for _ in resolutions(tier)) + sum(1 for _ in repeated_entries(tier))
     return {"tier": tier, "bounds": {"configurations": n, "flags": 16, "velocity_bins": "see lattice()", "tier": tier}}
 
 
@@ -93,12 +102,19 @@ def histories(tier):
 
 
 def units(ctx):
-    return list(lattice(ctx["tier"])) + histories(ctx["tier"]) + list(resolutions(ctx["tier"]))
+    return list(lattice(ctx["tier"])) + histories(ctx["tier"]) + list(resolutions(ctx["tier"])) + list(repeated_entries(ctx["tier"]))
 
 
 def make_tok(cfg):
     fl = cfg["fl"]
-    nv, st = VALUE_SETS[cfg["nv"]], STEP_SETS[cfg["st"]]
+    if cfg["nv"] == "helpers":
+        from scoda.misc.util import get_note_durations, get_tuplet_durations, get_dotted_note_durations
+        plain = get_note_durations(1, 8)
+        dotted = get_dotted_note_durations(plain, 1)
+        nv = [int(x) for x in plain + dotted + get_tuplet_durations(plain + dotted, 3, 2) if x == int(x) and x >= 1]
+        st = None
+    else:
+        nv, st = VALUE_SETS[cfg["nv"]], STEP_SETS[cfg["st"]]
     if cfg.get("ppqn"):
         q = cfg["ppqn"]
         return Tok(ppqn=q, num_tracks=cfg["nt"], pitch_range=tuple(cfg["pr"]), velocity_bins=cfg["vb"],
@@ -247,6 +263,11 @@ def run_unit(cfg, acc, ctx):
             bad("emitted_token_not_in_vocabulary", f"{name}: {missing[:4]} (of {toks})", {"input": name})
             continue
         try:
+            for cname in ("tuple", "generator", "iterator", "map"):
+                ids = t.encode(lib.carriers(toks)[cname]())
+                if t.decode(lib.carriers(ids)[cname]()) != toks:
+                    bad("decode_encode_not_identity_on_stream", f"{name}: tokens handed over as {cname}", {"input": name})
+                acc.flags["stream_handed_over_as_" + cname] += 1
             if t.decode(t.encode(toks)) != toks:
                 bad("decode_encode_not_identity_on_stream", f"{name}", {"input": name})
             t.detokenise(toks)
